@@ -263,7 +263,13 @@ def _lib_reader_reuse(case, ctx):
         fil.subband(150.0, int(case["nsub"]), outs, gulp=4096, **kw)
         with np.errstate(all="ignore"):
             cube = np.asarray(fil.fold(0.25, 10.0, nbins=16, nints=2, nbands=int(case.get("nbands", 5)), gulp=gulp, **kw).data)
-        res = (bp.tobytes(), sigfile.parse_file(outz)[2], tim.tobytes(), sigfile.parse_file(outs)[2], cube.tobytes())
+        low = np.array(fil.dedisperse(1.0, gulp=gulp, **kw).data, dtype=np.float64)       # a sweep of ~10 samples over the band: runs of channels share a delay
+        outm = os.path.join(d, f"m{tag}.fil")
+        mk = np.zeros(nch, dtype=bool); mk[[1, nch // 3, nch - 2]] = True
+        fil.apply_channel_mask(mk, 0, outm, gulp=gulp + 7, **kw)
+        masked = sigfile.parse_file(outm)[2]
+        os.unlink(outm)
+        res = (bp.tobytes(), sigfile.parse_file(outz)[2], tim.tobytes(), sigfile.parse_file(outs)[2], cube.tobytes(), low.tobytes(), masked)
         os.unlink(outz); os.unlink(outs)
         return res
 
@@ -273,7 +279,7 @@ def _lib_reader_reuse(case, ctx):
         ctx.violation("wrong-result:Filterbank.bandpass", "band-pass of a fresh reader at one thread is neither the per-channel sum nor the mean", dict(case))
         return
     fil = FilReader(path)
-    names = ("bandpass", "remove_zerodm", "collapse", "subband", "fold")
+    names = ("bandpass", "remove_zerodm", "collapse", "subband", "fold", "dedisperse", "apply_channel_mask")
     for t in (16, 8, 2, 1, 3, 12, 16, 1):
         ctx.evaluated(); ctx.count("kernel:lib_reader_reuse")
         one = dict(case, threads=t)
